@@ -46,6 +46,22 @@ def arrays_of(x):
     return out_arr, out_bas
 
 
+def _model_lookup(SplineModel, o):
+    m = SplineModel(o.pardim, o.dimension)
+    m.add(o.clone())
+    return m[o]
+
+
+def _model_add_twice(SplineModel, o):
+    m = SplineModel(o.pardim, o.dimension)
+    m.add(o.clone())
+    try:
+        m.add(o, raise_on_twins=False)
+    except TypeError:
+        m.add(o)
+    return m
+
+
 def run(tier, seed, replay=None):
     t0 = time.time()
     V = C.Verdict(PID, tier, seed)
@@ -57,7 +73,7 @@ def run(tier, seed, replay=None):
     import splipy.curve_factory as cf
     import splipy.surface_factory as sf
     import splipy.volume_factory as vf
-    from splipy.splinemodel import SplineModel
+    from splipy.splinemodel import SplineModel, Orientation
     from splipy.io import G2, STL, SVG
     rng = random.Random(seed)
     tmpd = os.path.join(C.BUILD, 'tmp')
@@ -135,6 +151,11 @@ def run(tier, seed, replay=None):
         ('vf.edge_surfaces(2)', lambda o: o.pardim == 2 and q is not None, lambda o, q: vf.edge_surfaces(o, q)),
         ('vf.loft', lambda o: o.pardim == 2 and q is not None, lambda o, q: vf.loft(o, q)),
         ('SplineModel.add', lambda o: all(b.periodic < 0 for b in o.bases), lambda o, q: SplineModel(o.pardim, o.dimension).add(o)),
+        # model routines that take an existing object and compare it with stored ones (Orientation.compute on both)
+        ('SplineModel lookup', lambda o: all(b.periodic < 0 for b in o.bases), lambda o, q: _model_lookup(SplineModel, o)),
+        ('SplineModel.add twice', lambda o: all(b.periodic < 0 for b in o.bases), lambda o, q: _model_add_twice(SplineModel, o)),
+        ('Orientation.compute', lambda o: True, lambda o, q: Orientation.compute(o, o.clone())),
+        ('Orientation.compute (2nd arg)', lambda o: True, lambda o, q: Orientation.compute(o.clone(), o)),
         ('make_splines_compatible on clones', lambda o: q is not None, lambda o, q: (lambda a, b: (SplineObject.make_splines_compatible(a, b), (a, b))[1])(o.clone(), q.clone())),
     ]
     INPLACE = [
